@@ -17,18 +17,19 @@
                                    The conditional forms over an abstract set of positions keep the suffix _partial.
      analyze_all_exact             PROVED for the engine model (SearchAll1-4.v), same setting as analyze_precise_exact (precise options,
                                    no table, any sort setting, any engine state without a table, every board size, games of at most
-                                   64 pieces or `within`, both evaluators): C05_analyze_all_exact_64 (the list itself: Analyze's line
-                                   first, then the heads filter (not Equal to pv[0] and attaining the value) over AllMoves in the
-                                   generator's order - so also the order and the absence of duplicates), C05_analyze_all_sets_64 (the
-                                   set form: every listed first move attains the value, every entry of AllMoves that attains it is
-                                   listed up to Move.Equal, no two listed first moves are Equal), C05_analyze_all_complete_raw (every
-                                   raw move value that attains it is Equal to a listed one).  For a call CANCELLED at point k the
-                                   same holds as long as the flag has not been seen set when AnalyzeAll returns
-                                   (C05_analyze_all_sets_cancel_64); once the flag is set the second pass of AnalyzeAll still runs,
-                                   abandoned child searches return 0, and the listed set can be wrong: C05_analyze_all_cancelled_refuted
-                                   (a cancelled call reports depth 3, value 0 and twelve lines of which two attain the value; the
-                                   real engine does the same).  What holds for every k: the value is exact, the first line is
-                                   Analyze's, every line starts with an accepted entry of AllMoves.
+                                   64 pieces or `within`, both evaluators), for the REPAIRED AnalyzeAll (bbe216e: AnalyzeAll stops listing
+                                   lines once the search is cancelled) and EVERY cancellation point k: C05_analyze_all_exact_64 (the
+                                   list itself: Analyze's line first, then a PREFIX of filter (not Equal to pv[0] and attaining the
+                                   value) over AllMoves in the generator's order; the whole filter when the call is not reported as
+                                   cancelled - so also the order and the absence of duplicates), C05_analyze_all_sets_cancel_64 (for
+                                   every k every listed first move attains the value and no two are Equal; not reported as cancelled
+                                   => every entry of AllMoves that attains it is listed up to Move.Equal), C05_analyze_all_sets_64
+                                   (k = 0), C05_analyze_all_complete_raw (every raw move value that attains it is Equal to a listed
+                                   one).  The code BEFORE the repair (switch `pinned` of Search.v) satisfies this only while the flag
+                                   is unset (C05_analyze_all_sets_pinned) and lists losing moves afterwards:
+                                   C05_analyze_all_cancelled_refuted_pinned (depth 3, value 0, twelve lines of which two attain the
+                                   value; the unrepaired engine did the same), C05_analyze_all_cancelled_fixed (the repaired model:
+                                   one line, Canceled), C05_example_cancelled_during_second_pass (prefixes).
      dedup_value_preserving        not proved and not modelled (DedupSymmetry); judged by the exhaustive oracle only.
      tt_valid_preserved / win_sound_complete (the table clause)   not proved; tested on every run against the forced-result solver on
                                    fresh engines and after histories of calls (repeats, neighbours, cancelled calls, tables of 2 entries up).
@@ -249,25 +250,29 @@ Proof. exact analyze_twice_fixed. Qed.
 Print Assumptions C05_analyze_twice_fixed.
 
 (* ================= AnalyzeAll: "its all-best-lines analysis lists exactly the first moves that attain it" =================
-   analyze_all_cancel basis cfg k = Search.analyze_all_gen (repaired code) with the context cancelled inside the k-th leaf evaluation
-   (k = 0: never; = Search.analyze_all, the function the check executes against MinimaxAI.AnalyzeAll on every run).
-   all_exact cfg k p sk pvs v d :=  SI sk /\ (d = 0 /\ pvs = []  \/  1 <= d <= 16 /\ d <= c_depth cfg /\ is_over p = false /\
-                                              all_result gen_basis cfg k p sk pvs v d)
-   all_result basis cfg k p sk pvs v d :=
+   Search.analyze_all_cancel basis cfg k = Search.analyze_all_gen false basis cfg k: the REPAIRED MinimaxAI.AnalyzeAll (after every child
+   search of the second pass the cancel flag is read; when it is set the loop stops, the lines found so far are reported, Stats.Canceled is
+   set) with the context cancelled inside the k-th leaf evaluation (k = 0: never; = Search.analyze_all).  Search.analyze_all_pinned = the
+   code before that repair.  ./check C05 executes both entry points' model against MinimaxAI.AnalyzeAll on every run.
+   all_exact pinned cfg k p sk pvs v d c :=  SI sk /\ (d = 0 /\ pvs = []  \/  1 <= d <= 16 /\ d <= c_depth cfg /\ is_over p = false /\
+                                              all_result pinned gen_basis cfg k p sk pvs v d c)          (c = the reported Canceled flag)
+   all_result pinned basis cfg k p sk pvs v d c :=
      v = nmx d p /\ exists pm pvt q0 ms tails,
        pvs = (pm :: pvt) :: tails /\ okl (pm :: pvt) /\                              (Analyze's line comes first)
        try_move p pm = Some q0 /\ In q0 (children p) /\ - nmx (d-1) q0 = v /\         (its first move is accepted and attains v)
        Forall (line_ok p) tails /\                                                   (every further line is m :: rest, m an accepted ENTRY of AllMoves)
        Permutation ms (all_moves p) /\ ((1 <? d) && negb nosort = false -> ms = all_moves p) /\   (the generator's order)
-       (cancelled k sk = false ->                                                    (the flag was never seen set; always so for k = 0)
-          map hd tails = filter (fun m => negb (move_equal pm m) && best (d-1) p m) ms)
+       let F := filter (fun m => negb (move_equal pm m) && best (d-1) p m) ms in     (what the uninterrupted second pass lists)
+       (pinned = false \/ cancelled k sk = false -> exists rest', F = map hd tails ++ rest') /\   (repaired code, ANY k: a prefix of F)
+       (cancelled k sk = false -> map hd tails = F) /\                                            (flag never seen: all of F)
+       (pinned = false -> c = false -> cancelled k sk = false)                                    (repaired code: not reported cancelled = flag never seen)
      best d' p m := m is accepted at p and leads to q with - nmx d' q = nmx (S d') p.
    Duplicates: none (AllMoves has no two Equal entries, C03; entries Equal to pv[0] are left out).  Order: pv[0], then AllMoves order
    (NoSort or depth 1) or the history-table order the generator fixed at its second call (a permutation of AllMoves). *)
 Theorem C05_analyze_all_exact_64 : forall cfg, precise cfg -> builtin_eval cfg ->
   forall k s p sk pvs v d c,
   SI s -> base_ok p -> (total p <= 64)%N -> move p + 16 <= max_terminal_ply ->
-  analyze_all_cancel gen_basis cfg k s p = (sk, (pvs, v, d, c)) -> all_exact cfg k p sk pvs v d.
+  analyze_all_cancel gen_basis cfg k s p = (sk, (pvs, v, d, c)) -> all_exact false cfg k p sk pvs v d c.
 Proof. exact analyze_all_exact_64. Qed.
 Print Assumptions C05_analyze_all_exact_64.
 
@@ -275,15 +280,31 @@ Print Assumptions C05_analyze_all_exact_64.
 Theorem C05_analyze_all_exact_within : forall cfg, precise cfg -> builtin_eval cfg ->
   forall k s p sk pvs v d c,
   SI s -> base_ok p -> within (dmax cfg) p -> move p + 16 <= max_terminal_ply ->
-  analyze_all_cancel gen_basis cfg k s p = (sk, (pvs, v, d, c)) -> all_exact cfg k p sk pvs v d.
+  analyze_all_cancel gen_basis cfg k s p = (sk, (pvs, v, d, c)) -> all_exact false cfg k p sk pvs v d c.
 Proof. exact analyze_all_exact_within. Qed.
 Print Assumptions C05_analyze_all_exact_within.
 
-(* The same as a statement about SETS of first moves, for the never-cancelled call (Search.analyze_all):
+(* The same as a statement about SETS of first moves.
    attains basis cfg p d v m := exists q, mvp basis p m = Ok q /\ - nmx basis (c_eval cfg) (d-1) q = v
    head_accepted basis p l   := exists m rest q, l = m :: rest /\ okm m /\ mvp basis p m = Ok q.
-   Every line is non-empty and starts with an accepted move; a first move is listed only if it attains the value; every entry of
-   AllMoves that attains the value is listed up to Move.Equal; no two listed first moves are Equal (they have different Equal-keys). *)
+   The repaired AnalyzeAll, cancelled at ANY point k or never, whenever it reports a depth d > 0: the value is the negamax value; every
+   line is non-empty and starts with an accepted move; EVERY listed first move attains the value; no two listed first moves are Equal
+   (different Equal-keys); and if the call is not reported as cancelled, every entry of AllMoves that attains the value is listed up to
+   Move.Equal. *)
+Theorem C05_analyze_all_sets_cancel_64 : forall cfg, precise cfg -> builtin_eval cfg ->
+  forall k s p sk pvs v d c,
+  SI s -> base_ok p -> (total p <= 64)%N -> move p + 16 <= max_terminal_ply ->
+  analyze_all_cancel gen_basis cfg k s p = (sk, (pvs, v, d, c)) -> 0 < d ->
+  SI sk /\ v = nmx gen_basis (c_eval cfg) (Z.to_nat d) p /\ pvs <> [] /\
+  Forall (head_accepted gen_basis p) pvs /\
+  (forall l, In l pvs -> attains gen_basis cfg p d v (hd move0 l)) /\
+  NoDup (map AllMovesFacts2.key (map (hd move0) pvs)) /\
+  (c = false ->
+    forall m, In m (all_moves p) -> attains gen_basis cfg p d v m -> exists l, In l pvs /\ move_equal (hd move0 l) m = true).
+Proof. exact analyze_all_sets_cancel_64. Qed.
+Print Assumptions C05_analyze_all_sets_cancel_64.
+
+(* never cancelled (Search.analyze_all): exactly the first moves that attain the value *)
 Theorem C05_analyze_all_sets_64 : forall cfg, precise cfg -> builtin_eval cfg ->
   forall s p sk pvs v d c,
   SI s -> base_ok p -> (total p <= 64)%N -> move p + 16 <= max_terminal_ply ->
@@ -298,26 +319,26 @@ Print Assumptions C05_analyze_all_sets_64.
 
 (* completeness for EVERY raw move value, not only the entries of AllMoves (C03: an accepted move is Equal to an entry) *)
 Theorem C05_analyze_all_complete_raw : forall cfg, precise cfg -> builtin_eval cfg ->
-  forall s p sk pvs v d c,
+  forall k s p sk pvs v d c,
   SI s -> base_ok p -> (total p <= 64)%N -> move p + 16 <= max_terminal_ply ->
-  analyze_all gen_basis cfg s p = (sk, (pvs, v, d, c)) -> 0 < d ->
+  analyze_all_cancel gen_basis cfg k s p = (sk, (pvs, v, d, c)) -> 0 < d -> c = false ->
   forall m, attains gen_basis cfg p d v m -> exists l, In l pvs /\ move_equal (hd move0 l) m = true.
 Proof. exact analyze_all_complete_raw_64. Qed.
 Print Assumptions C05_analyze_all_complete_raw.
 
-(* a call cancelled at any point k: what holds always, and the exact set as long as the flag was not seen set at the end *)
-Theorem C05_analyze_all_sets_cancel_64 : forall cfg, precise cfg -> builtin_eval cfg ->
+(* the code BEFORE the repair (analyze_all_pinned): the set is right only as long as the flag was not seen set when AnalyzeAll returns *)
+Theorem C05_analyze_all_sets_pinned : forall cfg, precise cfg -> builtin_eval cfg ->
   forall k s p sk pvs v d c,
   SI s -> base_ok p -> (total p <= 64)%N -> move p + 16 <= max_terminal_ply ->
-  analyze_all_cancel gen_basis cfg k s p = (sk, (pvs, v, d, c)) -> 0 < d ->
+  analyze_all_pinned gen_basis cfg k s p = (sk, (pvs, v, d, c)) -> 0 < d ->
   SI sk /\ v = nmx gen_basis (c_eval cfg) (Z.to_nat d) p /\ pvs <> [] /\
   Forall (head_accepted gen_basis p) pvs /\ attains gen_basis cfg p d v (hd move0 (hd [] pvs)) /\
   (cancelled k sk = false ->
     (forall l, In l pvs -> attains gen_basis cfg p d v (hd move0 l)) /\
     (forall m, In m (all_moves p) -> attains gen_basis cfg p d v m -> exists l, In l pvs /\ move_equal (hd move0 l) m = true) /\
     NoDup (map AllMovesFacts2.key (map (hd move0) pvs))).
-Proof. exact analyze_all_sets_cancel_64. Qed.
-Print Assumptions C05_analyze_all_sets_cancel_64.
+Proof. exact analyze_all_sets_pinned_64. Qed.
+Print Assumptions C05_analyze_all_sets_pinned.
 
 (* Non-vacuity (vm_compute): q4 = 3x3 after a1 c3 b2 b1, EvaluateWinner, depth 3, sorted: the hypotheses hold; three lines - Sc1, c1, b2- -
    value 0; the specification (negamax over the 16 entries of AllMoves) names the same three *)
@@ -328,18 +349,31 @@ Theorem C05_example_all_three :
 Proof. exact ex_all_three. Qed.
 Print Assumptions C05_example_all_three.
 
-(* FINDING (model and real engine agree): when the context is cancelled, AnalyzeAll still runs its second pass with the flag set; a child
-   search that is abandoned returns 0, which is taken for the child's value.  p5 = 3x3 after a1 c3 b2 b1 c1 (Black to move), MakePrecise,
-   NoSort, EvaluateWinner, Depth 4, no table, fresh engine, cancelled inside the 400th leaf evaluation: reported depth 3, value 0
-   (= negamax), TWELVE lines, among them a2 whose value is -WinBase; only two entries of AllMoves attain 0, and the uninterrupted
-   depth-3 call lists two.
-   cancelled_obs = (number of lines, value, depth, Stats.Canceled, flag seen at the end, a2 is among the first moves) of that call;
+(* REPAIRED DEFECT (known_findings: analyze-all-lists-unsearched-move, fixed by bbe216e).  Before the repair AnalyzeAll ran its second pass with the flag
+   set; a child search that is abandoned returns 0, which was taken for the child's value.  p5 = 3x3 after a1 c3 b2 b1 c1 (Black to
+   move), MakePrecise, NoSort, EvaluateWinner, Depth 4, no table, fresh engine, cancelled inside the 400th leaf evaluation: reported depth
+   3, value 0 (= negamax), TWELVE lines, among them a2 whose value is -WinBase; only two entries of AllMoves attain 0, and the
+   uninterrupted depth-3 call lists two.  Model with the `pinned` switch set (and the unrepaired engine):
+   cancelled_obs pinned = (number of lines, value, depth, Stats.Canceled, flag seen at the end, a2 is among the first moves) of that call;
    uninterrupted_obs = (number of lines, value, depth, Stats.Canceled) of the uninterrupted Depth-3 call on a fresh engine. *)
-Theorem C05_analyze_all_cancelled_refuted :
-  cancelled_obs = (12%nat, 0, 3, true, true, true) /\
+Theorem C05_analyze_all_cancelled_refuted_pinned :
+  cancelled_obs true = (12%nat, 0, 3, true, true, true) /\
   (match mvp gen_basis p5 a2 with Ok q => - nmx gen_basis evaluate_winner 2 q | _ => 0 end) = - Eval.WinBase /\
   nmx gen_basis evaluate_winner 3 p5 = 0 /\
   length (spec_best cfg4wn p5 3 0) = 2%nat /\
   uninterrupted_obs = (2%nat, 0, 3, false).
-Proof. exact cancelled_lists_losing_moves. Qed.
-Print Assumptions C05_analyze_all_cancelled_refuted.
+Proof. exact cancelled_lists_losing_moves_pinned. Qed.
+Print Assumptions C05_analyze_all_cancelled_refuted_pinned.
+
+(* the repaired model on the same input: Analyze's line only, reported as cancelled *)
+Theorem C05_analyze_all_cancelled_fixed : cancelled_obs false = (1%nat, 0, 3, true, true, false).
+Proof. exact cancelled_fixed. Qed.
+Print Assumptions C05_analyze_all_cancelled_fixed.
+
+(* the flag flips during the second pass (q4, MakePrecise, NoSort, EvaluateWinner, Depth 3; Analyze alone takes 184 leaf evaluations, the
+   whole call 282): prefixes of the uninterrupted list, flagged as cancelled.  heads_k k = (first moves, value, depth, Canceled) *)
+Theorem C05_example_cancelled_during_second_pass :
+  heads_k 0 = ([b2dn; c1; Sc1], 0, 3, false) /\ heads_k 250 = ([b2dn], 0, 3, true) /\ heads_k 270 = ([b2dn; c1], 0, 3, true) /\
+  heads_k 281 = ([b2dn; c1; Sc1], 0, 3, true).
+Proof. exact cancelled_during_second_pass. Qed.
+Print Assumptions C05_example_cancelled_during_second_pass.
